@@ -767,6 +767,12 @@ let rec nodup decA = function
 | [] -> []
 | x :: xs -> if in_dec decA x xs then nodup decA xs else x :: (nodup decA xs)
 
+(** val seq : nat -> nat -> nat list **)
+
+let rec seq start = function
+| O -> []
+| S len0 -> start :: (seq (S start) len0)
+
 (** val repeat : 'a1 -> nat -> 'a1 list **)
 
 let rec repeat x = function
@@ -4232,6 +4238,13 @@ let rec attr_by_name l n0 =
   | [] -> None
   | a :: r -> if beq a.a_name n0 then Some a else attr_by_name r n0
 
+(** val attr_by_oid : attr list -> z list -> attr option **)
+
+let rec attr_by_oid l o =
+  match l with
+  | [] -> None
+  | a :: r -> if oid_eqb a.a_oid o then Some a else attr_by_oid r o
+
 (** val vendor_index_by_name : vendor list -> str -> nat -> nat option **)
 
 let rec vendor_index_by_name l n0 i =
@@ -4598,6 +4611,145 @@ let rec parse_file ignore_identical opener fuel x x0 x1 x2 tr =
 let parse_root ignore_identical opener fuel fname text =
   parse_file ignore_identical opener fuel (fname :: []) fname text empty_dict
     []
+
+type heap = vendor list
+
+type pdict = { p_attrs : attr list; p_values : value list;
+               p_vendors : nat list }
+
+(** val deref : heap -> nat -> vendor **)
+
+let deref h p =
+  nth p h { vn_name = []; vn_number = Z0; vn_format = None; vn_attrs = [];
+    vn_values = [] }
+
+(** val view : heap -> pdict -> dict **)
+
+let view h d =
+  { d_attrs = d.p_attrs; d_values = d.p_values; d_vendors =
+    (map (deref h) d.p_vendors) }
+
+(** val ptr_by_name : heap -> nat list -> str -> nat option **)
+
+let rec ptr_by_name h ps n0 =
+  match ps with
+  | [] -> None
+  | p :: r ->
+    if beq (deref h p).vn_name n0 then Some p else ptr_by_name h r n0
+
+(** val ptr_by_number : heap -> nat list -> z -> nat option **)
+
+let rec ptr_by_number h ps k =
+  match ps with
+  | [] -> None
+  | p :: r ->
+    if Z.eqb (deref h p).vn_number k then Some p else ptr_by_number h r k
+
+(** val index_by_number : heap -> nat list -> z -> nat -> nat option **)
+
+let rec index_by_number h ps k i =
+  match ps with
+  | [] -> None
+  | p :: r ->
+    if Z.eqb (deref h p).vn_number k
+    then Some i
+    else index_by_number h r k (S i)
+
+(** val opt_nat_eqb : nat option -> nat option -> bool **)
+
+let opt_nat_eqb a b =
+  match a with
+  | Some x -> (match b with
+               | Some y -> Nat.eqb x y
+               | None -> false)
+  | None -> (match b with
+             | Some _ -> false
+             | None -> true)
+
+(** val attr_clash : attr list -> attr -> bool **)
+
+let attr_clash existing a =
+  match attr_by_name existing a.a_name with
+  | Some _ -> true
+  | None ->
+    (match attr_by_oid existing a.a_oid with
+     | Some _ -> true
+     | None -> false)
+
+(** val e_merge_attr : n **)
+
+let e_merge_attr =
+  Npos (XI (XI (XI (XI XH))))
+
+(** val e_merge_vendor : n **)
+
+let e_merge_vendor =
+  Npos (XO (XO (XO (XO (XO XH)))))
+
+(** val e_merge_vattr : n **)
+
+let e_merge_vattr =
+  Npos (XI (XO (XO (XO (XO XH)))))
+
+(** val check_attrs : pdict -> pdict -> bool **)
+
+let check_attrs d1 d2 =
+  existsb (attr_clash d1.p_attrs) d2.p_attrs
+
+(** val check_vendors : heap -> pdict -> nat list -> n option **)
+
+let rec check_vendors h d1 = function
+| [] -> None
+| p :: r ->
+  let v = deref h p in
+  let bn = ptr_by_name h d1.p_vendors v.vn_name in
+  let bk = ptr_by_number h d1.p_vendors v.vn_number in
+  if negb (opt_nat_eqb bn bk)
+  then Some e_merge_vendor
+  else (match bn with
+        | Some q ->
+          if existsb (attr_clash (deref h q).vn_attrs) v.vn_attrs
+          then Some e_merge_vattr
+          else check_vendors h d1 r
+        | None -> check_vendors h d1 r)
+
+(** val assemble : bool -> heap -> nat list -> nat list -> heap * nat list **)
+
+let rec assemble legacy h ps = function
+| [] -> (h, ps)
+| p :: r ->
+  let v = deref h p in
+  (match index_by_number h ps v.vn_number O with
+   | Some i ->
+     let q = nth i ps O in
+     let e = deref h q in
+     let combined = { vn_name = e.vn_name; vn_number = e.vn_number;
+       vn_format = e.vn_format; vn_attrs = (app e.vn_attrs v.vn_attrs);
+       vn_values = (app e.vn_values v.vn_values) }
+     in
+     if legacy
+     then assemble legacy (update_at q combined h) ps r
+     else assemble legacy (app h (combined :: []))
+            (update_at i (length h) ps) r
+   | None -> assemble legacy h (app ps (p :: [])) r)
+
+(** val merge : bool -> heap -> pdict -> pdict -> (heap * pdict) res **)
+
+let merge legacy h d1 d2 =
+  if check_attrs d1 d2
+  then Err e_merge_attr
+  else (match check_vendors h d1 d2.p_vendors with
+        | Some e -> Err e
+        | None ->
+          let (h', ps) = assemble legacy h d1.p_vendors d2.p_vendors in
+          Ok (h', { p_attrs = (app d1.p_attrs d2.p_attrs); p_values =
+          (app d1.p_values d2.p_values); p_vendors = ps }))
+
+(** val load : heap -> dict -> heap * pdict **)
+
+let load h d =
+  ((app h d.d_vendors), { p_attrs = d.d_attrs; p_values = d.d_values;
+    p_vendors = (seq (length h) (length d.d_vendors)) })
 
 type key = n * n
 
@@ -12186,6 +12338,69 @@ let dispatch_dict name bs zs =
             then Some (flat_map (fun f -> (TB f) :: []) (scan_lines (b1 bs)))
             else None
 
+(** val load_all : heap -> bytes list -> (heap * pdict list) option **)
+
+let rec load_all h = function
+| [] -> Some (h, [])
+| t :: r ->
+  (match fst
+           (parse_root false (fun _ -> None) (S (S (S O))) ((Npos (XO (XO (XI
+             (XO (XO (XI XH))))))) :: []) t) with
+   | POk d ->
+     let (h1, pd) = load h d in
+     (match load_all h1 r with
+      | Some p -> let (h2, ps) = p in Some (h2, (pd :: ps))
+      | None -> None)
+   | _ -> None)
+
+(** val chain : bool -> heap -> pdict -> pdict list -> (heap * pdict) res **)
+
+let rec chain legacy h acc = function
+| [] -> Ok (h, acc)
+| d :: r ->
+  (match merge legacy h acc d with
+   | Ok a -> let (h', acc') = a in chain legacy h' acc' r
+   | x -> x)
+
+(** val dispatch_merge : bytes -> bytes list -> z list -> tok list option **)
+
+let dispatch_merge name bs _ =
+  if (||)
+       (name_is name (String ((Ascii (true, false, true, true, false, true,
+         true, false)), (String ((Ascii (false, true, true, true, false,
+         true, false, false)), (String ((Ascii (true, false, true, true,
+         false, true, true, false)), (String ((Ascii (true, false, true,
+         false, false, true, true, false)), (String ((Ascii (false, true,
+         false, false, true, true, true, false)), (String ((Ascii (true,
+         true, true, false, false, true, true, false)), (String ((Ascii
+         (true, false, true, false, false, true, true, false)),
+         EmptyString)))))))))))))))
+       (name_is name (String ((Ascii (true, true, false, false, true, true,
+         true, false)), (String ((Ascii (false, true, true, true, false,
+         true, false, false)), (String ((Ascii (true, false, true, true,
+         false, true, true, false)), (String ((Ascii (true, false, true,
+         false, false, true, true, false)), (String ((Ascii (false, true,
+         false, false, true, true, true, false)), (String ((Ascii (true,
+         true, true, false, false, true, true, false)), (String ((Ascii
+         (true, false, true, false, false, true, true, false)),
+         EmptyString)))))))))))))))
+  then (match load_all [] bs with
+        | Some p ->
+          let (h, l) = p in
+          (match l with
+           | [] -> Some ((TI (Zneg (XI (XO (XI (XI (XI (XO XH)))))))) :: [])
+           | d :: ds ->
+             (match chain false h d ds with
+              | Ok a ->
+                let (h', r) = a in
+                Some ((TI
+                Z0) :: (app (t_dict (view h' r))
+                         (flat_map (fun x -> t_dict (view h' x)) (d :: ds))))
+              | Err _ -> Some ((TI (Zpos XH)) :: [])
+              | _ -> Some ((TI (Zpos (XO XH))) :: [])))
+        | None -> Some ((TI (Zneg (XI (XO (XI (XI (XI (XO XH)))))))) :: []))
+  else None
+
 (** val dispatch : bytes -> bytes list -> z list -> tok list **)
 
 let dispatch name bs zs =
@@ -12248,5 +12463,8 @@ let dispatch name bs zs =
                                       (match dispatch_dict name bs zs with
                                        | Some t -> t
                                        | None ->
-                                         (TI (Zneg (XI (XO (XO (XO (XO (XI
-                                           XH)))))))) :: []))))))))
+                                         (match dispatch_merge name bs zs with
+                                          | Some t -> t
+                                          | None ->
+                                            (TI (Zneg (XI (XO (XO (XO (XO (XI
+                                              XH)))))))) :: [])))))))))
